@@ -113,8 +113,15 @@ def make_jobs(ctx, sc):
 
         def fn(wit=wit, meta=meta):
             out_c, st = gen_c(ctx, sc)
-            meta.update({'translation': st})
-            flags = ['-I', RT] + ['-D%s' % d for d in sc.cdefs(wit)]
+            if 'oracle_sites' not in st:
+                try:
+                    txt = open(out_c).read()
+                    st['oracle_sites'] = len(re.findall(r'VF_(ALIVE|BAD_ACCESS|HASSERT|NULL_ACCESS|PANIC|CHECK)\(', txt)) + sc.R * len(sc.threads) + 1
+                    st['visible_points'] = txt.count('VF_VP(')
+                except Exception:
+                    pass
+            meta.update({'translation': st, 'oracle_sites': st.get('oracle_sites', 1)})
+            flags = ['-I', RT, '--no-standard-checks'] + ['-D%s' % d for d in sc.cdefs(wit)]
             r = vf.cbmc(out_c, None, unwind=max(sc.R, len(sc.threads), 12) + 1, flags=flags, timeout=sc.timeout, mem_gb=sc.mem_gb, checks=[], drop_unused=False,
                         solver=list(sc.solver), trace=True)
             return r
